@@ -137,21 +137,21 @@ Fixpoint run_loop (p : xparams) (limit : nat) (k : Z) (s : sched) (m : mon) : sc
       let '(s2, m2, ls) := run_loop p l k' s' m' in (s2, m2, ln :: ls)
     | _ => (s', m, [ln])
     end end.
-Fixpoint run_ops (p : xparams) (s : sched) (m : mon) (ops : list op) : mon * list line :=
-  match ops with [] => (m, [])
+Fixpoint run_ops (p : xparams) (s : sched) (m : mon) (ops : list op) : sched * mon * list line :=
+  match ops with [] => (s, m, [])
   | Next :: rest =>
       let '(s', o) := next s in
       let m' := match o with Yield a => mon_step p s' a m | _ => m end in
-      let '(m2, ls) := run_ops p s' m' rest in (m2, LNext o (observe s') :: ls)
+      let '(s2, m2, ls) := run_ops p s' m' rest in (s2, m2, LNext o (observe s') :: ls)
   | Fin k :: rest =>
       let '(s', e) := finalize k s in
-      let '(m2, ls) := run_ops p s' m rest in (m2, LFin e (observe s') :: ls)
+      let '(s2, m2, ls) := run_ops p s' m rest in (s2, m2, LFin e (observe s') :: ls)
   | Run k limit :: rest =>
       let '(s', m', l1) := run_loop p limit k s m in
-      let '(m2, ls) := run_ops p s' m' rest in (m2, l1 ++ ls)
+      let '(s2, m2, ls) := run_ops p s' m' rest in (s2, m2, l1 ++ ls)
   end.
 
 (* a complete case: construct (or the constructor's exception), the observation before any action, then the ops *)
 Definition run_case (pr : params) (p : xparams) (ops : list op) : res (obs * mon * list line) :=
   do s <- construct pr;
-  let '(m, ls) := run_ops p s mon0 ops in Ok (observe s, m, ls).
+  let '(_, m, ls) := run_ops p s mon0 ops in Ok (observe s, m, ls).
